@@ -96,6 +96,26 @@ func runC15(ctx *h.Ctx) int {
 	ctx.RunCases("scopes", ctx.N(6000, 300000), func(k *h.Case) {
 		g := spec.NewGen(k.R, prof)
 		prog := g.FullProgram(1 + k.R.IntN(6))
+		if k.R.IntN(4) == 0 {
+			// names shaped like generated labels that clash with nothing (no script of the file is called like their
+			// prefix): the scope rules apply to them like to any other name
+			base := g.Name("Elsewhere")
+			for _, it := range prog.Items {
+				if k.R.IntN(2) != 0 {
+					continue
+				}
+				switch x := it.(type) {
+				case *spec.TextItem:
+					x.Name = fmt.Sprintf("%s_Text_%d", base, k.R.IntN(4))
+				case *spec.MovementItem:
+					x.Name = fmt.Sprintf("%s_Movement_%d", base, k.R.IntN(4))
+				case *spec.MartItem:
+					x.Name = fmt.Sprintf("%s_%d", base, 10+k.R.IntN(4))
+				}
+				base = g.Name("Elsewhere")
+			}
+			k.Count("files_with_names_shaped_like_generated_labels", 1)
+		}
 		rp, rerr := spec.Resolve(prog, prog.Switches)
 		pr := layoutOf(k, prog, 0.2)
 		k.SetSource(pr.Src)
